@@ -329,10 +329,10 @@ func Gen(prop, tier string, seed, run uint64) Plan {
 			}
 			mutOps = append(mutOps, Op{C: CMut, K: "SetConv", Name: name, Convs: cs})
 		default:
-			if len(p.Converters) > 0 {
+			if len(p.Converters) > 0 && r.IntN(2) == 0 {
 				mutOps = append(mutOps, Op{C: CMut, K: "ResetConv", Conv: p.Converters[r.IntN(len(p.Converters))]})
 			} else {
-				mutOps = append(mutOps, Op{C: CMut, K: "Status"})
+				mutOps = append(mutOps, Op{C: CMut, K: []string{"Status", "ListConverters", "ListTags", "KnownPcaps", "ListEndpoints"}[r.IntN(5)]})
 			}
 		}
 	}
